@@ -131,22 +131,34 @@ Proof.
   intro H. unfold zrange. replace n with (Z.of_nat (Z.to_nat n)) by lia. apply in_map. apply in_seq. lia.
 Qed.
 
-Lemma fshort_impl_sweep : forallb (fun n => beq_bytes (impl_enc_fshort n) [Z.to_N n]) (zrange 256) = true.
+(* pre-fix one-byte form, lengths below 256 *)
+Lemma fshort_old_sweep : forallb (fun n => beq_bytes (old_enc_fshort n) [Z.to_N n]) (zrange 256) = true.
 Proof. vm_compute. reflexivity. Qed.
-Lemma fshort_impl n : 0 <= n < 256 -> impl_enc_fshort n = [Z.to_N n].
+Lemma fshort_old n : 0 <= n < 256 -> old_enc_fshort n = [Z.to_N n].
 Proof.
-  intro H. pose proof fshort_impl_sweep as S. rewrite forallb_forall in S.
+  intro H. pose proof fshort_old_sweep as S. rewrite forallb_forall in S.
   apply beq_bytes_eq. apply S. apply zrange_in. lia.
 Qed.
 
-Lemma fshort_van_sweep :
-  forallb (fun n => beq_bytes (van_enc_fshort n) (be_enc 2 (Z.to_N n)) && (Z.land n 32768 =? 0)) (zrange 256) = true.
-Proof. vm_compute. reflexivity. Qed.
-Lemma fshort_van n : 0 <= n < 256 -> van_enc_fshort n = be_enc 2 (Z.to_N n) /\ Z.land n 32768 = 0.
+(* today's two-byte form, vanilla lengths (below 2^15): no third byte *)
+Lemma land_hi n k : 0 <= n < 2 ^ 15 -> Z.land n (Z.shiftl k 15) = 0.
 Proof.
-  intro H. pose proof fshort_van_sweep as S. rewrite forallb_forall in S.
-  specialize (S n (zrange_in 256 n ltac:(lia))). apply andb_true_iff in S as [S1 S2].
-  split; [apply beq_bytes_eq; exact S1 | apply Z.eqb_eq; exact S2].
+  intros H. apply Z.bits_inj'. intros i Hi. rewrite Z.land_spec, Z.bits_0.
+  destruct (Z_lt_le_dec i 15) as [L|G].
+  - rewrite Z.shiftl_spec_low by lia. apply andb_false_r.
+  - replace (Z.testbit n i) with false; [reflexivity|]. symmetry.
+    destruct (Z.eq_dec n 0) as [->|Hn]; [apply Z.bits_0|].
+    apply Z.bits_above_log2; [lia|]. assert (Z.log2 n < 15) by (apply Z.log2_lt_pow2; lia). lia.
+Qed.
+
+Lemma fshort_new n : 0 <= n < 32768 -> enc_fshort n = be_enc 2 (Z.to_N n) /\ Z.land n 32768 = 0.
+Proof.
+  intro H. change 32768 with (2 ^ 15) in H.
+  assert (H1 : Z.land n 32767 = n).
+  { change 32767 with (Z.ones 15). rewrite Z.land_ones by lia. apply Z.mod_small. exact H. }
+  assert (H2 : Z.land n 8355840 = 0) by (change 8355840 with (Z.shiftl 255 15); apply land_hi; exact H).
+  assert (H3 : Z.land n 32768 = 0) by (change 32768 with (Z.shiftl 1 15); apply land_hi; exact H).
+  split; [|exact H3]. unfold enc_fshort. rewrite H1, H2. cbn [Z.shiftr Z.shiftl Z.eqb]. rewrite app_nil_r. reflexivity.
 Qed.
 
 (* ---------- uuid text ---------- *)
@@ -397,23 +409,23 @@ Proof.
     cbn [lp_dec]. rewrite <- D2, take_n_app. reflexivity.
   - (* PBytes17 *)
     apply andb_true_iff in D as [D1 D2].
-    assert (Hl : 0 <= lenZ s < 256) by (unfold lenZ in *; lia).
-    exists (impl_enc_fshort (lenZ s) ++ s). split.
+    assert (Hl : 0 <= lenZ s < 32768) by (unfold lenZ in *; lia).
+    destruct (fshort_new (lenZ s) Hl) as [E1 E2].
+    exists (enc_fshort (lenZ s) ++ s). split.
     + cbn [lp_enc]. replace (forge_max <? lenZ s) with false by (symmetry; apply Z.ltb_ge; unfold forge_max; lia). reflexivity.
-    + cbn [lp_dec]. rewrite fshort_impl by exact Hl. cbn [app impl_dec_fshort].
-      rewrite Z2N.id by lia. unfold lenZ. rewrite Nat2Z.id, take_n_app. reflexivity.
-  - (* PBytes17V *)
-    apply andb_true_iff in D as [D1 D2].
-    assert (Hl : 0 <= lenZ s < 256) by (unfold lenZ in *; lia).
-    destruct (fshort_van (lenZ s) Hl) as [E1 E2].
-    exists (van_enc_fshort (lenZ s) ++ s). split.
-    + cbn [lp_enc]. replace (forge_max <? lenZ s) with false by (symmetry; apply Z.ltb_ge; unfold forge_max; lia). reflexivity.
-    + cbn [lp_dec]. unfold van_dec_fshort. rewrite E1, <- app_assoc.
+    + cbn [lp_dec]. unfold dec_fshort. rewrite E1, <- app_assoc.
       rewrite <- (be_enc_length 2 (Z.to_N (lenZ s))) at 1. rewrite take_n_app.
       rewrite be_val_enc. change (256 ^ N.of_nat 2)%N with 65536%N.
       rewrite N.mod_small by lia. rewrite Z2N.id by lia. rewrite E2. cbn [Z.eqb].
       replace (forge_max <? lenZ s) with false by (symmetry; apply Z.ltb_ge; unfold forge_max; lia).
       unfold lenZ. rewrite Nat2Z.id, take_n_app. reflexivity.
+  - (* PBytes17Old *)
+    apply andb_true_iff in D as [D1 D2].
+    assert (Hl : 0 <= lenZ s < 256) by (unfold lenZ in *; lia).
+    exists (old_enc_fshort (lenZ s) ++ s). split.
+    + cbn [lp_enc]. replace (forge_max <? lenZ s) with false by (symmetry; apply Z.ltb_ge; unfold forge_max; lia). reflexivity.
+    + cbn [lp_dec]. rewrite fshort_old by exact Hl. cbn [app old_dec_fshort].
+      rewrite Z2N.id by lia. unfold lenZ. rewrite Nat2Z.id, take_n_app. reflexivity.
   - (* PUUIDStr *)
     apply andb_true_iff in D as [D1 D2]. apply Nat.eqb_eq in D2.
     exists (enc_varint (lenZ (uuid_text d s)) ++ uuid_text d s). split; [cbn [lp_enc]; rewrite D2; reflexivity|].
@@ -450,10 +462,7 @@ Proof.
   - destruct (dec_lenpref max bs) as [[s r]|e] eqn:E; [|discriminate]. inversion H; subst. apply dec_lenpref_min in E. lia.
   - destruct (take_n 16 bs) as [[b r]|e] eqn:E; [|discriminate]. inversion H; subst. apply take_n_len in E. lia.
   - destruct (take_n n bs) as [[b r]|e] eqn:E; [|discriminate]. inversion H; subst. apply take_n_len in E. lia.
-  - destruct bs as [|b r]; [discriminate|]. cbn [impl_dec_fshort] in H.
-    destruct (take_n (Z.to_nat (Z.of_N b)) r) as [[s r']|e] eqn:E; [|discriminate]. inversion H; subst.
-    apply take_n_len in E. cbn [length]. lia.
-  - unfold van_dec_fshort in H. destruct (take_n 2 bs) as [[b2 r]|e] eqn:E; [|discriminate]. apply take_n_len in E.
+  - unfold dec_fshort in H. destruct (take_n 2 bs) as [[b2 r]|e] eqn:E; [|discriminate]. apply take_n_len in E.
     destruct (Z.land (Z.of_N (be_val b2)) 32768 =? 0).
     + destruct (forge_max <? Z.of_N (be_val b2)); [discriminate|].
       destruct (take_n (Z.to_nat (Z.of_N (be_val b2))) r) as [[s r']|e] eqn:E2; [|discriminate]. inversion H; subst.
@@ -462,6 +471,9 @@ Proof.
       destruct (forge_max <? _); [discriminate|].
       destruct (take_n _ r') as [[s r'']|e] eqn:E2; [|discriminate]. inversion H; subst.
       apply take_n_len in E2. cbn [length] in E. lia.
+  - destruct bs as [|b r]; [discriminate|]. cbn [old_dec_fshort] in H.
+    destruct (take_n (Z.to_nat (Z.of_N b)) r) as [[s r']|e] eqn:E; [|discriminate]. inversion H; subst.
+    apply take_n_len in E. cbn [length]. lia.
   - destruct (dec_lenpref _ bs) as [[s r]|e] eqn:E; [|discriminate]. apply dec_lenpref_min in E.
     destruct (parse_uuid_text s); [|discriminate]. inversion H; subst. lia.
   - destruct (dec_lenpref _ bs) as [[s r]|e] eqn:E; [|discriminate]. apply dec_lenpref_min in E.
